@@ -31,15 +31,15 @@ THEOREMS = [
     "Escape.flatten_render", "Escape.flatten_error_iff", "Escape.flatten_balanced", "Escape.flatten_safe",
     "Escape.flatten_text",
     "Escape.double_path", "Escape.double_path_param",
-    "Escape.identifier_clean", "Escape.identifier_guard_partial", "Escape.identifier_guard_counterexample",
+    "Escape.sanitise_chars", "Escape.literal_holds_ok", "Escape.sanitise_guard", "Escape.sanitise_guard_partial",
+    "Escape.sanitise_guard_counterexample",
+    "Escape.identifier_clean", "Escape.identifier_guard", "Escape.identifier_guard_counterexample",
     "Escape.identifier_guard_counterexample_space", "Escape.identifier_guard_counterexample_cr",
 ]
 PARTIAL = {
-    "Escape.identifier_guard_partial":
-        "the replacement of @deprecated(...) stays inside its inline literal only under `literalSafe`: non-empty, "
-        "no backtick, no backslash, no NUL, no tab/VT/FF, no str.splitlines() boundary, first and last character not "
-        "whitespace. The full statement (every non-identifier replacement) is false: see the three counterexample theorems "
-        "and the known finding rst-injection:deprecated-replacement.",
+    "Escape.sanitise_guard_partial":
+        "historical: about the sanitiser between 50c0cec and 782581b (rstrip('\\\\')), which could leave a trailing blank "
+        "(sanitise_guard_counterexample). The code as it is (sanitise true) has the full theorems sanitise_guard / identifier_guard.",
     "Escape.double_path":
         "strings containing form feed, U+FFFE or U+FFFF are excluded (XMLString rejects them: html2stan raises and "
         "pydoctor falls back to plain text, which is C08's subject)",
@@ -618,6 +618,54 @@ def run_deprecate_streams(ctx: Ctx) -> None:
             greqs.append(f"escape guard {enc(repl)} {enc(xs)} {enc(xc)}")
             gpay.append(repl)
     ctx.compare("deprecate:deprecatedToUsefulText", reqs, impls, pay)
+    # (2b) the sanitiser alone, on strings full of what it is there for, + direct oracle on the real result read by the
+    #      real docutils: it must be one literal holding the sanitised text
+    reqs, impls, pay, freqs = [], [], [], []
+    SAN = LIT_PIECES + ["\n", "\t", " \\", "\\ ", "\\\\", "``", " ", " ", "\x00", "\x00\\", "\u3000", "\x1f", "'"]
+    fixed_r = ["*b* \\", "x \\\\\\", "\\", " \\ ", "`", "", " ", "\x00", "a`` `c <javascript:alert(1)>`_ ``b", " *b* x", "x\rA\r\r.. raw:: html\r\r   <b>\r",
+               "a \\ \\", "a\\", "\\a", "a\x00\\"]
+    for r in fixed_r + ["".join(rng.choice(SAN) for _ in range(rng.choice([1, 2, 3, 4, 6, 9]))) for _ in range(n)]:
+        xs, xc = non_ascii_tables(r)
+        if all(p.isidentifier() for p in r.split(".")):
+            continue
+        out, _ = impl_deprtext("f", "pkg", (1, 2, 3), r)
+        if not out.startswith("ok "):
+            impls.append(out)
+        else:
+            text = dec(out[3:])
+            wrapped = text.split("; please use `", 1)[1][:-len("` instead.")]
+            san = wrapped[1:-1]
+            impls.append("ok " + enc(san))
+            # direct oracle (no model): characters, then the real docutils on the real result
+            bad = [c for c in san if c in "`\x00" or (c != " " and c.isspace())]
+            reading = impl_literal(san)
+            if bad or reading != "lit " + enc(san):
+                residual = san.endswith(" ")
+                ctx.fail("rst-injection:deprecated-replacement" + (":blank-before-trailing-backslash" if residual else ""),
+                         {"replacement": r, "sanitised": san, "docutils": reading},
+                         f"replacement {r!r} is interpolated as ``{san}``, which docutils reads as {reading[:60]}")
+        reqs.append("escape sanitise " + enc(r))
+        freqs.append("escape sanitiseold " + enc(r))
+        pay.append({"replacement": r})
+        ctx.case(reqs[-1], True)
+        ctx.count("depr:sanitise")
+    ctx.compare("deprecate:sanitiser", reqs, impls, pay)
+    if ctx.model_ok:
+        # the model's own `holds`, against the real docutils: what the model says the sanitiser yields must be read as one
+        # literal holding it (sanitise_guard); the pre-782581b variant only when it does not end in a blank
+        # (sanitise_guard_partial) — and the residual strings must still be the ones it lets through (regression)
+        outs_new = ctx.driver.run_parallel(reqs)
+        outs_old = ctx.driver.run_parallel(freqs)
+        for rq, o, oo in zip(reqs, outs_new, outs_old):
+            san = dec(o[3:])
+            if impl_literal(san) != "lit " + enc(san):
+                ctx.disagree("deprecate:sanitise_guard~docutils", rq, o, impl_literal(san))
+            old = dec(oo[3:])
+            held = impl_literal(old) == "lit " + enc(old)
+            ctx.count("depr:sanitise-old:" + ("held" if held else "escapes" + (":trailing-blank" if old.endswith(" ") else "")))
+            if not held and not old.endswith(" "):
+                ctx.disagree("deprecate:sanitise_guard_partial~docutils", rq, oo, impl_literal(old))
+            ctx.traces_validated += 2
     # (3) what docutils makes of the wrapped replacement
     reqs, impls, pay = [], [], []
     fixed = ["a b", "a`` `click <javascript:alert(1)>`_ ``b", " x", "x ", "", "``", "`", "a`", "`a", "a\\", "a\\\\", "\\", "a\x0bb",
@@ -756,6 +804,8 @@ REST_PAYLOADS = [
     "x\rA *MKEM{i}* b\r\r.. raw:: html\r\r   <xmk{i} onzz{i}=1>\r\r",
     "x\x1cA *MKEM{i}* b",
     "*MKEM{i}* y\x00",
+    "x *MKEM{i}* \\",          # blank + trailing backslash: what rstrip('\\') uncovers
+    "x *MKEM{i}* \x00\\\\",
 ]
 VALUE_KINDS = ["constant", "class-constant", "default", "annotation", "decorator-arg", "class-base-arg",
                "deprecated-replacement", "deprecated-package", "attribute-value"]
@@ -1048,7 +1098,10 @@ def check_page(name: str, raw: bytes, markers: Sequence[Tuple[str, int, str, str
         m = re.search(r"(?:xmk|onzz|MKEM|MKURL|alert\()(\d+)", s)
         if m and int(m.group(1)) in by_num:
             hit_nums.add(int(m.group(1)))
-            return by_num[int(m.group(1))][1]
+            mid, kind, pl = by_num[int(m.group(1))]
+            if kind == "deprecated-replacement" and re.search(r"[\s\x00]\\+[\s\x00]*$", pl):
+                kind += ":blank-before-trailing-backslash"
+            return kind
         m = re.search(r"MK(\d{4})q", s)
         if m and int(m.group(1)) in by_num:
             return by_num[int(m.group(1))][1]
@@ -1171,8 +1224,8 @@ def run_one_project(args) -> Dict[str, Any]:
 
 def taint_signature(sig: str) -> str:
     # the one confirmed defect gets the signature under which it is recorded
-    if sig == "source-text-became-markup:deprecated-replacement":
-        return "rst-injection:deprecated-replacement"
+    if sig.startswith("source-text-became-markup:deprecated-replacement"):
+        return "rst-injection:" + sig.split(":", 1)[1]
     return sig
 
 
